@@ -1,5 +1,6 @@
 SPECIFICATION Spec
 CONSTANTS MaxEdit = 2  MaxInv = 3  MaxKill = 1  MaxFail = 0  GenDepth = 0
+CONSTANT Flags = {"plain"}
 CONSTANT Weak = {"NoInvalidateBeforeRun"}
 VIEW view
 CONSTRAINT CexPrint
